@@ -81,6 +81,8 @@ int main(int argc, char **argv)
     rng_t r = rng_for(a.seed, 0xC7C7, 0);
     static const size_t LL[] = {0, 1, 2, 3, 4, 5, 8, 17};
     static uint8_t key[128], nonce[12], ad[64], m[9000], c[9000], m2[9000], out[9000], info[64], salt[64];
+    static uint8_t pk_arena[3 * 4096] __attribute__((aligned(4096)));
+    uint8_t *const out_mid = out;
     long idx = 0;
     int v, i, j, t;
     install_crash_handlers();
@@ -117,6 +119,9 @@ int main(int argc, char **argv)
                 for (t = 0; t < verdicts; ++t) {
                     /* t = 0 accept; 1..8 reject with tag byte t-1 wrong; 9 reject via body */
                     if (t == 9 && mlen == 0) continue;
+                    /* where the packet lies is public too: every other verdict has its received tag laid across a page
+                     * boundary (1..7 bytes before it), the others sit mid-page */
+                    uint8_t *out = (t & 1) ? out_mid : pk_arena + 2 * 4096 - (mlen + 8) + 1 + (size_t)((t / 2 + v) % 7);
                     memcpy(out, c, mlen + 8);
                     if (t >= 1 && t <= 8) out[mlen + (size_t)(t - 1)] ^= 0x40;
                     if (t == 9) out[mlen / 2] ^= 0x01;
